@@ -266,39 +266,63 @@ func c20Mautil(c *Ctx) {
 	const pkg = "mautil"
 	code := func(n string) string { v, _ := c.ConstString("github.com/multiformats/go-multiaddr", n); return v }
 	// FindHTTPAddrs
-	if f := c.Func(pkg, "FindHTTPAddrs"); f != nil && len(f.SSA.AnonFuncs) == 1 {
-		pred := f.SSA.AnonFuncs[0]
-		consts := map[string]bool{}
-		instrsDeep(pred, func(_ *ssa.Function, in ssa.Instruction) {
-			if bo, ok := in.(*ssa.BinOp); ok && bo.Op == token.EQL {
-				if x := c.E(bo.X); x.Op == "field" && x.Name == "Code" {
-					consts[c.E(bo.Y).Name] = true
-				}
-			}
-		})
-		nilFalse := false
-		for _, b := range pred.Blocks {
-			if ret, ok := b.Instrs[len(b.Instrs)-1].(*ssa.Return); ok {
-				if _, g := c.GuardedB(b, EqNil(Op("param", "")), true); g {
-					nilFalse = c.RetX(ret, 0).Name == "false"
-				}
-			}
-		}
-		// any path with target == nil returns false: the only true-return is under target != nil
-		trueUnderNonNil := true
-		for _, b := range pred.Blocks {
-			if ret, ok := b.Instrs[len(b.Instrs)-1].(*ssa.Return); ok && c.RetX(ret, 0).Name != "false" {
-				if _, g := c.GuardedB(b, EqNil(Op("param", "")), false); !g {
-					trueUnderNonNil = false
+	if f, pred := c.Func(pkg, "FindHTTPAddrs"), (*ssa.Function)(nil); f != nil {
+		// the predicate handed to FilterAddrs: a literal or a named function of the package
+		for _, cs := range c.Calls(f.SSA, Call("go-multiaddr.FilterAddrs")) {
+			if len(cs.X.Args) == 2 {
+				// variadic: exactly one predicate
+				if es := variadicElems(c, cs.X.Args[1]); len(es) == 1 {
+					if v, ok := es[0].V.(ssa.Value); ok {
+						switch v := unwrapV(v).(type) {
+						case *ssa.MakeClosure:
+							pred, _ = v.Fn.(*ssa.Function)
+						case *ssa.Function:
+							pred = v
+						}
+					}
 				}
 			}
 		}
-		_ = nilFalse
-		c.Check(len(consts) == 2 && consts[code("P_HTTP")] && consts[code("P_HTTPS")] && trueUnderNonNil, "C20.X4-helper-predicates", f.Name+" › selects http/https", f.SSA.Pos(), "keeps an address iff it is non-nil and has a protocol with code http or https", "HTTP-address selection does not test exactly the http and https codes on non-nil addresses")
-		_, viaFilter := Match(Call("go-multiaddr.FilterAddrs", Op("param", "")), firstRetAny(c, f))
-		c.Check(viaFilter, "C20.X4-helper-predicates", f.Name+" › filters its argument", f.SSA.Pos(), "result = FilterAddrs(argument, predicate)", "result is not the filtered argument list")
+		if pred == nil || len(pred.Blocks) == 0 {
+			c.Unk("C20.X4-helper-predicates", "mautil.FindHTTPAddrs", token.NoPos, "predicate handed to FilterAddrs not found")
+		} else {
+			consts := map[string]bool{}
+			instrsDeep(pred, func(_ *ssa.Function, in ssa.Instruction) {
+				if bo, ok := in.(*ssa.BinOp); ok && bo.Op == token.EQL {
+					if x := c.E(bo.X); x.Op == "field" && x.Name == "Code" {
+						consts[c.E(bo.Y).Name] = true
+					}
+				}
+			})
+			// a nil address is never kept: every alternative of the result other than the constant false is chosen
+			// under target != nil
+			trueUnderNonNil := true
+			for _, b := range pred.Blocks {
+				ret, ok := b.Instrs[len(b.Instrs)-1].(*ssa.Return)
+				if !ok {
+					continue
+				}
+				for _, l := range c.LeavesF(c.RetX(ret, 0), ret) {
+					if v, isC := boolConst(l.Val); isC && !v {
+						continue
+					}
+					g := false
+					for _, fct := range append(append([]Fact{}, l.Facts...), c.FactsAt(b)...) {
+						if _, m := Match(EqNil(Op("param", "")), fct.Cond); m && !fct.Val {
+							g = true
+						}
+					}
+					if !g {
+						trueUnderNonNil = false
+					}
+				}
+			}
+			c.Check(len(consts) == 2 && consts[code("P_HTTP")] && consts[code("P_HTTPS")] && trueUnderNonNil, "C20.X4-helper-predicates", f.Name+" › selects http/https", f.SSA.Pos(), "keeps an address iff it is non-nil and has a protocol with code http or https", "HTTP-address selection does not test exactly the http and https codes on non-nil addresses")
+			_, viaFilter := Match(Call("go-multiaddr.FilterAddrs", Op("param", "")), firstRetAny(c, f))
+			c.Check(viaFilter, "C20.X4-helper-predicates", f.Name+" › filters its argument", f.SSA.Pos(), "result = FilterAddrs(argument, predicate)", "result is not the filtered argument list")
+		}
 	} else {
-		c.Unk("C20.X4-helper-predicates", "mautil.FindHTTPAddrs", token.NoPos, "not found or not a single-predicate filter")
+		c.Unk("C20.X4-helper-predicates", "mautil.FindHTTPAddrs", token.NoPos, "not found")
 	}
 	// FilterPublic
 	if f := c.Func(pkg, "FilterPublic"); f != nil && len(f.SSA.AnonFuncs) == 1 {
